@@ -17,6 +17,7 @@ from __future__ import annotations
 import io
 import json
 
+from harness.pyprelude import PreludeKernels
 from vlib.core import Check, Stream, b01, hs, hx, line, opt, unhx
 
 CALL_CAP = 5000  # an underlying stream that is asked more often than this within one case = endless read
@@ -651,9 +652,9 @@ class ChoiceStream(Stream):
 
 CHECK = Check(
     prop="C09",
-    gen=["InputStream"],
-    modules=["WzVerif.Props.C09"],
-    streams=[ReadsStream(), WrappedStream(), ChoiceStream()],
+    gen=["InputStream", "PyFns_Internal", "PyFns_Length"],
+    modules=["WzVerif.Props.C09", "WzVerif.Props.C09T"],
+    streams=[ReadsStream(), WrappedStream(), ChoiceStream(), PreludeKernels()],
     assumptions=[
         "the underlying wsgi.input is a well-behaved binary stream: read(n)/readinto(b) return at most the requested number of bytes, or raise OSError/ValueError; other exception classes raised by the server's stream propagate unchanged and are outside the model",
         "CPython's RawIOBase.read / IOBase.readline / readlines / __next__ are modelled by thin definitions on top of readinto (validated by stream reads, not verified)",
@@ -661,6 +662,7 @@ CHECK = Check(
         "zero-size reads are outside the property's quantifier (read(0) on an unexhausted declared-length stream raises ClientDisconnected; modelled as coded, excluded from the short-body oracle)",
         "limit and max_content_length are natural numbers (get_content_length never returns a negative value)",
         "known finding F09b: under a maximum (is_max=True) an unbounded read() of a body longer than the maximum returns the first max bytes without RequestEntityTooLarge; only a further read raises. The full-strength negation and the partial form (every read *past* the maximum raises; read() lands exactly on the limit) are proved",
+        "get_content_length and _plain_int are regenerated from the source by tools/py2lean.py (Gen/PyFns_Length.lean, Gen/PyFns_Internal.lean) on every run and proved equal to the hand model for all inputs (Props/C09T; int() is modelled on -?[0-9]+ only, which the proof shows is all that reaches it); the CPython primitives the translated code calls are modelled in Util/PyPrelude.lean and validated by stream prelude-kernels",
     ],
     trusted_extra=["CPython io module glue (RawIOBase, BufferedReader, TextIOWrapper): exercised by the streams, not verified"],
     quick_budget=2500,
